@@ -519,8 +519,19 @@ func canonSet(line string) string {
 func dropMin(line string) string {
 	// lat=total,mean,max,min
 	i := strings.Index(line, " lat=")
-	j := strings.Index(line[i+1:], " ") + i + 1
+	if i < 0 {
+		return line
+	}
+	j := strings.Index(line[i+1:], " ")
+	if j < 0 {
+		j = len(line)
+	} else {
+		j += i + 1
+	}
 	parts := strings.Split(line[i+5:j], ",")
+	if len(parts) < 3 {
+		return line
+	}
 	return line[:i] + " lat=" + strings.Join(parts[:3], ",") + ",*" + line[j:]
 }
 
